@@ -17,6 +17,7 @@ import (
 	"math/rand"
 	"os"
 	"path/filepath"
+	"sort"
 	"strings"
 	"sync"
 
@@ -313,6 +314,122 @@ func scenario(res *evid.Result, idx int, root string) {
 	}
 }
 
+// nearThreshold: pairs of unrelated functions whose structural similarity lies just below the
+// pairing threshold (and, as a control, just above it). A pool of small functions is
+// fingerprinted once, all same-bucket pairs are scored, and for the pairs closest to the
+// threshold a two-file scenario (f removed, g added under a fresh name) goes through the real
+// cli.ComputeDiff. The verdict is the ordinary one: a reported rename pair must reach the
+// threshold, by the reported number and by the similarity of the pair's actual functions.
+func nearThreshold(res *evid.Result, root string) {
+	r := evid.Rand(19777)
+	pool := &gen.File{Pkg: "p", Prelude: gen.Prelude("p")}
+	n := evid.Pick(260, 700)
+	for i := 0; i < n; i++ {
+		// all six classes have two parameters and one result (one fuzzy-hash family) but
+		// differ in the parameter/result types, which spreads the similarities out
+		sig := []gen.Sig{gen.SigII, gen.SigIS, gen.SigXI, gen.SigSS, gen.SigMI, gen.SigUI}[r.Intn(6)]
+		pool.Funcs = append(pool.Funcs, gen.Function(r, fmt.Sprintf("Q%d", i), sig, 2+r.Intn(7)))
+	}
+	dir := filepath.Join(root, "near")
+	defer os.RemoveAll(dir)
+	path, _ := pairs.WriteFP(dir, "pool", "p", pool.Source())
+	rs, err := diff.FingerprintSource(path, pool.Source(), ir.DefaultLiteralPolicy)
+	if err != nil {
+		res.Inconcl(1)
+		res.Count("near_threshold_pool_does_not_load", 1)
+		return
+	}
+	type ent struct {
+		i    int
+		topo *topology.FunctionTopology
+	}
+	buckets := map[string][]ent{}
+	byName := index(rs)
+	for i, f := range pool.Funcs {
+		if info, ok := byName[f.Name]; ok && info.topo != nil && len(f.DeclNames()) == 1 {
+			h := topology.GenerateFuzzyHash(info.topo)
+			buckets[h] = append(buckets[h], ent{i, info.topo})
+		}
+	}
+	type cand struct {
+		a, b int
+		sim  float64
+	}
+	var below, above []cand
+	thr := models.DefaultTopologyMatchThreshold
+	for _, es := range buckets {
+		for x := 0; x < len(es); x++ {
+			for y := x + 1; y < len(es); y++ {
+				s := topology.TopologySimilarity(es[x].topo, es[y].topo)
+				res.Count(fmt.Sprintf("near_threshold_hist_%.2f", math.Floor(s*50)/50), 1)
+				switch {
+				case s >= thr-0.02 && s < thr:
+					below = append(below, cand{es[x].i, es[y].i, s})
+				case s >= thr && s < thr+0.01:
+					above = append(above, cand{es[x].i, es[y].i, s})
+				}
+			}
+		}
+	}
+	// closest to the threshold first
+	sort.Slice(below, func(i, j int) bool { return below[i].sim > below[j].sim })
+	sort.Slice(above, func(i, j int) bool { return above[i].sim < above[j].sim })
+	res.Count("near_threshold_buckets", len(buckets))
+	res.Count("near_threshold_pairs_just_below", len(below))
+	res.Count("near_threshold_pairs_just_above", len(above))
+	run := func(c cand, k int, kind string) {
+		f, g := pool.Funcs[c.a], pool.Funcs[c.b]
+		g.Text = strings.ReplaceAll(g.Text, g.Name, "Fresh"+g.Name)
+		g.Name = "Fresh" + g.Name
+		keep := pool.Funcs[(c.a+1)%len(pool.Funcs)]
+		if keep.Name == pool.Funcs[c.b].Name || keep.Name == f.Name {
+			keep = pool.Funcs[(c.a+2)%len(pool.Funcs)]
+		}
+		of := &gen.File{Pkg: "p", Prelude: gen.Prelude("p"), Funcs: []gen.Func{f, keep}}
+		nf := &gen.File{Pkg: "p", Prelude: gen.Prelude("p"), Funcs: []gen.Func{g, keep}}
+		d := filepath.Join(dir, fmt.Sprintf("%s%d", kind, k))
+		op, _ := pairs.WriteFP(d, "old", "p", of.Source())
+		np, _ := pairs.WriteFP(d, "new", "p", nf.Source())
+		out, err := cli.ComputeDiff(cli.RealFileSystem{}, op, np)
+		if err != nil {
+			res.Inconcl(1)
+			return
+		}
+		res.Eval(1)
+		res.Distinct(fmt.Sprintf("near-threshold/%s/%.3f", kind, c.sim))
+		paired := false
+		for _, m := range out.TopologyMatches {
+			if !m.MatchedByName && m.OldFunction == f.Name && m.NewFunction == g.Name {
+				paired = true
+				if m.Similarity < thr || c.sim < thr {
+					res.Violate("pair-below-threshold", fmt.Sprintf("%s → %s reported as a rename although their structural similarity is %.6f (reported %.6f), below the threshold %v", f.Name, g.Name, c.sim, m.Similarity, thr), map[string]any{"old": of.Source(), "new": nf.Source(), "similarity": c.sim})
+				}
+			}
+		}
+		if kind == "above" && paired {
+			res.Count("near_threshold_above_paired", 1)
+		}
+		if kind == "below" && !paired {
+			res.Count("near_threshold_below_not_paired", 1)
+		}
+	}
+	for k, c := range below {
+		if k >= evid.Pick(12, 60) {
+			break
+		}
+		run(c, k, "below")
+	}
+	for k, c := range above {
+		if k >= evid.Pick(4, 20) {
+			break
+		}
+		run(c, k, "above")
+	}
+	if len(below) > 0 {
+		res.Set("near_threshold_closest_below", below[0].sim)
+	}
+}
+
 func laws(res *evid.Result, ts []*topology.FunctionTopology, kind string) {
 	for i := range ts {
 		for j := i; j < len(ts); j++ {
@@ -383,6 +500,7 @@ func main() {
 		}(i)
 	}
 	wg.Wait()
+	nearThreshold(res, root)
 	r := evid.Rand(1919)
 	for b := 0; b < evid.Pick(40, 1000); b++ {
 		var ts []*topology.FunctionTopology
